@@ -238,6 +238,10 @@ func (r *rewriter) rewriteFile() {
 			r.census.Notes = append(r.census.Notes, fmt.Sprintf("%s imports %s (not simulated)", r.fname, p))
 		}
 	}
+	// R6: calls that take a mutex inside the standard library while possibly blocking on
+	// the network (gob Encoder.Encode / Decoder.Decode) are serialised by a lock the
+	// simulator can see
+	r.wrapStdlibLocked(f)
 	// declarations
 	for _, d := range f.Decls {
 		fd, ok := d.(*ast.FuncDecl)
@@ -738,4 +742,63 @@ func (r *rewriter) rangeStmt(st *ast.RangeStmt) []ast.Stmt {
 		return []ast.Stmt{pre, loop}
 	}
 	return []ast.Stmt{st}
+}
+
+// wrapStdlibLocked rewrites X.Decode(a) / X.Encode(a) into
+// _vsim.Locked(X, func() error { return X.Decode(a) }).
+func (r *rewriter) wrapStdlibLocked(f *ast.File) {
+	var visit func(n ast.Node) bool
+	done := map[*ast.CallExpr]bool{}
+	replace := func(e ast.Expr) ast.Expr {
+		ce, ok := e.(*ast.CallExpr)
+		if !ok || len(ce.Args) != 1 || done[ce] {
+			return e
+		}
+		se, ok := ce.Fun.(*ast.SelectorExpr)
+		if !ok || (se.Sel.Name != "Decode" && se.Sel.Name != "Encode") {
+			return e
+		}
+		// X must be a plain identifier or field selection (no side effects when evaluated twice)
+		switch se.X.(type) {
+		case *ast.Ident, *ast.SelectorExpr:
+		default:
+			return e
+		}
+		r.count("R6_stdlib_locked")
+		done[ce] = true
+		fn := &ast.FuncLit{
+			Type: &ast.FuncType{Params: &ast.FieldList{}, Results: &ast.FieldList{List: []*ast.Field{{Type: ast.NewIdent("error")}}}},
+			Body: &ast.BlockStmt{List: []ast.Stmt{&ast.ReturnStmt{Results: []ast.Expr{ce}}}},
+		}
+		return r.simCall("Locked", se.X, fn)
+	}
+	visit = func(n ast.Node) bool {
+		switch x := n.(type) {
+		case *ast.AssignStmt:
+			for i := range x.Rhs {
+				x.Rhs[i] = replace(x.Rhs[i])
+			}
+		case *ast.SendStmt:
+			x.Value = replace(x.Value)
+		case *ast.ReturnStmt:
+			for i := range x.Results {
+				x.Results[i] = replace(x.Results[i])
+			}
+		case *ast.ExprStmt:
+			x.X = replace(x.X)
+		case *ast.IfStmt:
+			// if err := X.Decode(..); err != nil
+			if as, ok := x.Init.(*ast.AssignStmt); ok {
+				for i := range as.Rhs {
+					as.Rhs[i] = replace(as.Rhs[i])
+				}
+			}
+		case *ast.ValueSpec:
+			for i := range x.Values {
+				x.Values[i] = replace(x.Values[i])
+			}
+		}
+		return true
+	}
+	ast.Inspect(f, visit)
 }
